@@ -502,13 +502,21 @@ class _Stop(Exception):
     pass
 
 
-def gen_tool_case(rng, big):
+# read-size plans that sit on the case splits of BufferedStream::write (fits / spill then fits / spill then direct write)
+BOUNDARY_PLANS = [[8192], [8193], [8191, 1], [8191, 2], [4096, 4096], [4096, 4096, 1], [1, 8192], [1, 8191], [9000], [10000], [8192, 8192], [8192, 1, 8192],
+                  [5000, 5000], [8190, 1, 1, 1], [10000, 10000, 10000], [8192, 9000], [1] * 6, [8191, 9999]]
+
+
+def gen_tool_case(rng, big, plan=None):
     """Generate an oracle for the mini filter tool of hx_exit by lazily simulating the
     order of its system calls (generation only: results are never taken from here)."""
     chunk = rng.choice([4096, 10000]) if big else rng.choice([1, 3, 64, 4096])
     fin = rng.choice([b"", b"END", b"\n"]) if not big else rng.choice([b"", b"END", bytes(rng.randrange(256) for _ in range(8200))])
     nreads = rng.randrange(0, 5)
     sizes = [rng.randrange(1, chunk + 1) if big else rng.randrange(1, min(chunk, 40) + 1) for _ in range(nreads)]
+    if plan is not None:
+        chunk, sizes, nreads = 10000, list(plan), len(plan)
+        fin = rng.choice([b"", b"E", bytes(8192), bytes(8193)])
     est = 2 * nreads + 8
     fail_at = rng.choice([None, None] + list(range(est)))
     fail_errno = rng.choice([5, 28, 32])
@@ -699,6 +707,11 @@ def phase_model(c, drv, hx, model_cases, kernel_cases, child_cases, strace_cases
         l, fin = gen_tool_case(c.rng, big=i >= n_small)
         lines.append(l)
         fins.append(fin)
+    for plan in BOUNDARY_PLANS:
+        for rep in range(2 if c.tier == "quick" else 12):
+            l, fin = gen_tool_case(c.rng, True, plan=plan)
+            lines.append(l)
+            fins.append(fin)
     for code in range(256):
         lines.append("WAIT exit:%d" % code)
         fins.append(b"")
